@@ -1,6 +1,7 @@
 import MiniconfVerif.Props.C15
 import MiniconfVerif.Lemmas.PackedLsb
 import MiniconfVerif.Lemmas.WalkTotal
+import MiniconfVerif.Lemmas.GenTieKeys
 
 /-! # C16 — no key or payload can make a tree operation panic
 
@@ -40,6 +41,23 @@ theorem key_width_in_contract (len : BitVec 64) (hl : len ≠ 0) (h : len ≤ 0x
     keyBits len ≤ 63 := by
   simp only [keyBits, bitsFor, BITS]
   bv_decide
+
+open MiniconfVerif.Gen MiniconfVerif.Gen.Core MiniconfVerif.GenTie in
+/-- **No packed word makes the translated `Keys::next` panic.**  `<Packed as Keys>::next` **as translated from packed.rs**
+(with the `debug_assert!`s, shift-overflow and subtraction-borrow sites of `bits_for` / `pop_msb` explicit as `.panic`)
+returns a value — an index or a `Traversal` error — for every word and every lookup with at least one child whose key
+width fits the word (`Lookup.fits`: at most `2^63` children; beyond that is the open finding F5). -/
+theorem source_packed_next_no_panic (w : BitVec 64) (lk : Lookup) (h0 : 0 < lk.len) (h64 : lk.len < 2 ^ 64)
+    (hfit : lk.fits) : ∀ m, Gen.Keys.Packed.next w (lookupToGen lk) ≠ .panic m := by
+  intro m hp
+  have h := packed_next_tie w lk h0 h64
+  rw [hp] at h
+  cases hm : (KeySrc.packed w).next lk with
+  | ok r => rw [hm] at h; exact h
+  | error e =>
+    rw [hm] at h
+    have := next_no_panic (.packed w) lk hfit e hm
+    cases e <;> first | exact h | simp [Trav.isPanic] at this
 
 /-- **Totality of every by-key operation**: for every well-formed tree in every runtime state
 whose lookups fit, every operation, every key source (arbitrary strings, integers, packed
